@@ -1,5 +1,3 @@
 package sim
 
-func checkC17(ix *index, add addFn) {}
-func checkC18(ix *index, add addFn) {}
 func checkC20(ix *index, add addFn) {}
